@@ -1950,3 +1950,105 @@ Proof.
   - destruct (match p_pfault P (pb_val (get_pub (fst (run P cfg (init_state threads) sched)) p)) with PfOk => true | _ => false end) eqn:E;
       eexists; eexists; reflexivity.
 Qed.
+
+(* ================================================================== *)
+(* C03: progress.  In a reachable state in which (H1) the goroutines waiting for handler mutexes do not wait in a
+   cycle - the documented exception is exactly such a cycle - and (H2) no goroutine sits in Wait, in Shutdown's
+   waiter or select, or crashed, while it is itself an in-flight delivery or holds a handler mutex (Wait and
+   Shutdown are not among the calls a handler may make), and (H3) a pending Shutdown still has its waiter, some
+   goroutine can take a step whenever some goroutine is unfinished. *)
+Definition stuckish (i : instr) : bool :=
+  match i with IDo AWait | IWaiterDone _ | IShutdownSelect _ _ | ICrashed => true | _ => false end.
+
+Lemma assoc_get_in_keys {V} (l : list (nat * V)) k v : assoc_get l k = Some v -> In k (map fst l).
+Proof.
+  induction l as [|[k' v'] r IH]; cbn [assoc_get]; [discriminate|].
+  destruct (Nat.eqb k' k) eqn:E; intros H; [left; apply Nat.eqb_eq, E | right; apply IH, H].
+Qed.
+
+Lemma total_pos cs : NoDup (map fst cs) -> 0 < total cs -> exists a c, assoc_get cs a = Some c /\ 0 < weight c.
+Proof.
+  induction cs as [|[k v] r IH]; intros ND H; [cbn in H; lia|].
+  rewrite total_cons in H. cbn [map fst] in ND. apply NoDup_cons_iff in ND. destruct ND as [Hk ND].
+  destruct (weight v) eqn:E.
+  - destruct (IH ND) as [a [c [Ha Hc]]]; [lia|]. exists a, c. split; [|exact Hc].
+    cbn [assoc_get]. destruct (Nat.eqb k a) eqn:Ek; [|exact Ha].
+    apply Nat.eqb_eq in Ek. subst a. exfalso. apply Hk. eapply assoc_get_in_keys; exact Ha.
+  - exists k, v. cbn [assoc_get]. rewrite Nat.eqb_refl. split; [reflexivity | lia].
+Qed.
+
+Section Progress.
+  Variable P : program.
+  Variable cfg : buscfg.
+  Variable s : bstate.
+  Hypothesis R : reachable P cfg s.
+  Variable rank : actor -> nat.
+  Hypothesis H1 : forall a h rest b, assoc_get (code s) a = Some (ILock h :: rest) ->
+                    assoc_get (seqlocks s) (r_id h) = Some b -> rank b < rank a.
+  Hypothesis H2 : forall a i rest, assoc_get (code s) a = Some (i :: rest) -> stuckish i = true ->
+                    weight (i :: rest) = 0 /\ forall rid, held rid (i :: rest) = 0.
+  Hypothesis H3 : forall a sid c rest, assoc_get (code s) a = Some (IShutdownSelect sid c :: rest) ->
+                    memb sid (waiters_done s) = true \/ exists w r, assoc_get (code s) w = Some (IWaiterDone sid :: r).
+
+  Definition enabled_somewhere : Prop := exists b s' ls, mstep P cfg s b = Some (s', ls).
+
+  (* a goroutine that is not in Wait / Shutdown / crashed: either it can step, or it waits for a mutex whose holder
+     (further down the acyclic wait-for order) leads to somebody who can *)
+  Lemma chain_progress : forall n a i rest, rank a <= n ->
+    assoc_get (code s) a = Some (i :: rest) -> stuckish i = false -> enabled_somewhere.
+  Proof.
+    induction n as [|n IH]; intros a i rest Hr Ha Hs.
+    - destruct (step_instr P cfg s a i rest) as [[s' ls]|] eqn:E.
+      + exists a, s', ls. unfold mstep. rewrite Ha. exact E.
+      + destruct (only_these_block P cfg s a i rest E) as [[h ->]|[[p ->]|[->|[[sid ->]|[[sid [c ->]]| ->]]]]]; try discriminate Hs.
+        * cbn [step_instr] in E. destruct (assoc_get (seqlocks s) (r_id h)) as [b|] eqn:Eb; [|discriminate].
+          pose proof (H1 a h rest b Ha Eb). lia.
+        * cbn [step_instr] in E. destruct (store_mu s) as [b|] eqn:Eb; [|discriminate].
+          destruct (store_lock_holder_runs P cfg s R b Eb) as [s' [ls Hb]]. exists b, s', ls. exact Hb.
+    - destruct (step_instr P cfg s a i rest) as [[s' ls]|] eqn:E.
+      + exists a, s', ls. unfold mstep. rewrite Ha. exact E.
+      + destruct (only_these_block P cfg s a i rest E) as [[h ->]|[[p ->]|[->|[[sid ->]|[[sid [c ->]]| ->]]]]]; try discriminate Hs.
+        * cbn [step_instr] in E. destruct (assoc_get (seqlocks s) (r_id h)) as [b|] eqn:Eb; [|discriminate].
+          pose proof (H1 a h rest b Ha Eb) as Hlt.
+          destruct (no_orphaned_handler_lock P cfg s R (r_id h) b Eb) as [cb [Hcb Hheld]].
+          destruct cb as [|ib restb]; [cbn in Hheld; lia|].
+          destruct (stuckish ib) eqn:Sb.
+          -- destruct (H2 b ib restb Hcb Sb) as [_ Hz]. rewrite Hz in Hheld. lia.
+          -- apply (IH b ib restb); [lia | exact Hcb | exact Sb].
+        * cbn [step_instr] in E. destruct (store_mu s) as [b|] eqn:Eb; [|discriminate].
+          destruct (store_lock_holder_runs P cfg s R b Eb) as [s' [ls Hb]]. exists b, s', ls. exact Hb.
+  Qed.
+
+  (* with deliveries in flight, one of them is not stuck in Wait / Shutdown, so the chain lemma applies to it *)
+  Lemma inflight_progress : 0 < inflight s -> enabled_somewhere.
+  Proof.
+    intros Hpos. destruct (inflight_counts P cfg s R) as [Hc WI].
+    destruct (total_pos (code s) (wi_nodup s WI)) as [t [ct [Ht Hw]]]; [lia|].
+    destruct ct as [|it restt]; [cbn in Hw; lia|].
+    destruct (stuckish it) eqn:St.
+    - destruct (H2 t it restt Ht St) as [Hz _]. lia.
+    - apply (chain_progress (rank t) t it restt (le_n _) Ht St).
+  Qed.
+
+  Theorem progress_partial :
+    (exists a i rest, assoc_get (code s) a = Some (i :: rest) /\ i <> ICrashed) -> enabled_somewhere.
+  Proof.
+    intros [a [i [rest [Ha Hnc]]]].
+    destruct (stuckish i) eqn:Si; [|apply (chain_progress (rank a) a i rest (le_n _) Ha Si)].
+    destruct (Nat.eq_dec (inflight s) 0) as [Hz|Hnz]; [|apply inflight_progress; lia].
+    destruct i; try discriminate Si.
+    - (* IDo: only AWait is stuckish *)
+      destruct a0; try discriminate Si. exists a. unfold mstep. rewrite Ha. cbn [step_instr].
+      destruct (Nat.eqb (inflight s) 0) eqn:E; [eexists; eexists; reflexivity | apply Nat.eqb_neq in E; contradiction].
+    - (* IShutdownSelect *)
+      destruct (H3 a sid c rest Ha) as [Hd | [w [r Hw]]].
+      + exists a. unfold mstep. rewrite Ha. cbn [step_instr].
+        destruct (memb sid (waiters_done s)) eqn:E; [eexists; eexists; reflexivity | discriminate].
+      + exists w. unfold mstep. rewrite Hw. cbn [step_instr].
+        destruct (Nat.eqb (inflight s) 0) eqn:E; [eexists; eexists; reflexivity | apply Nat.eqb_neq in E; contradiction].
+    - (* IWaiterDone *)
+      exists a. unfold mstep. rewrite Ha. cbn [step_instr].
+      destruct (Nat.eqb (inflight s) 0) eqn:E; [eexists; eexists; reflexivity | apply Nat.eqb_neq in E; contradiction].
+    - contradiction Hnc. reflexivity.
+  Qed.
+End Progress.
